@@ -384,7 +384,7 @@ def run_check(mod, tier, seed, replay=None):
         known_lines.append('KNOWN-FINDING: property=%s id=%s site=%s class="%s" cases=%d e.g. "%s" impl="%s" expected="%s"' % (
             pid, kid, e.get('call_site', '?'), e.get('class', ''), len(cs), c.req, c.impl, c.oracle if c.oracle is not None else c.mans))
     if fails_spec:
-        fails_spec.sort(key=lambda c: (len(c.req), c.req))
+        fails_spec.sort(key=lambda c: (c.impl == 'crash:too-many', len(c.req), c.req))
         violations.append(('property-fails', 'IMPL differs from what the property demands on %d inputs, e.g. %s -> impl=%s expected=%s' % (
             len(fails_spec), fails_spec[0].req, fails_spec[0].impl, fails_spec[0].oracle if fails_spec[0].oracle is not None else fails_spec[0].mans),
             {'cases': [cj(c) for c in fails_spec[:20]], 'count': len(fails_spec)}, False))
